@@ -347,17 +347,18 @@ func c02Mint(c *Ctx) {
 	ver := c02VerifierFacts(c, rule, false)
 
 	// signer
-	signers := callsTo(fn, jose+".NewSigner")
+	signers := c.findSteps(fn, jose+".NewSigner")
 	if len(signers) != 1 {
 		c.Bad(rule, key+" NewSigner", fn.Pos(), "expected exactly one jose.NewSigner call, found %d", len(signers))
 		return
 	}
-	sg := signers[0]
+	sgS := signers[0]
+	sg := sgS.call
 	skOK := false
 	if a, ok := loadAddr(strip(arg(sg, 0))); ok {
 		st := structFieldStores(a)
 		alg, _ := constString(first(st["Algorithm"]))
-		keyOK := len(st["Key"]) == 1 && isLoadOfGlobal(st["Key"][0], signingKey)
+		keyOK := len(st["Key"]) == 1 && isLoadOfGlobal(c.upIn(sgS, st["Key"][0]), signingKey)
 		if alg == "HS256" && keyOK {
 			skOK = true
 		}
@@ -403,7 +404,7 @@ func c02Mint(c *Ctx) {
 		ek := key + " exit#" + itoa(i)
 		ok, why := mustPass(fn, e, lenAtLeast(func(v ssa.Value) bool { return isLoadOfGlobal(v, signingKey) }, 32))
 		c.Check(ok, rule, ek+" keylen", e.Pos(), "success return only after len(SigningKey) >= 32", "success return "+why+": signing key shorter than 32 bytes is used")
-		c.requireChecked(rule, ek+" signer", fn, e, sg, 1, "signer construction")
+		c.requireStep(rule, ek+" signer", fn, e, sgS, 1, "signer construction")
 		// the returned token is the Serialize result of a builder rooted at jwt.Signed(sig) with both claim sets
 		okTok := false
 		var msg string
@@ -429,7 +430,7 @@ func c02Mint(c *Ctx) {
 						}
 					}
 				}
-				if n == joseJWT+".Signed" && strip(arg(bc, 0)) == resultOf(sg, 0) {
+				if n == joseJWT+".Signed" && (strip(arg(bc, 0)) == resultOf(sg, 0) || c.norm(arg(bc, 0)) == resultOf(sg, 0)) {
 					rooted = true
 				}
 			}
